@@ -15,6 +15,7 @@
 
 #include <fmt/core.h>
 
+#include <exception>
 #include <string>
 #include <string_view>
 #include <optional>
@@ -172,6 +173,13 @@ int main(int argc, char** argv)
     catch(const sbe_error& e)
     {
         reporter.error("{}", e.what());
+        return 1;
+    }
+    catch(const std::exception& e)
+    {
+        // not a problem of the schema: out of memory, a failure reported by
+        // the standard library, ...
+        reporter.error("unexpected failure: {}", e.what());
         return 1;
     }
 
